@@ -74,8 +74,12 @@ func (m *SeqMon[T]) CheckAll(full bool) {
 		}
 		c.Count("obs:Values", 1)
 		if n <= 256 {
-			for j := -1; j <= n; j++ {
-				m.checkGet(j)
+			// every index, starting somewhere in the middle and wrapping: an
+			// implementation that re-anchors itself when asked for an end must
+			// not be helped by the monitor always asking for the ends first
+			start := c.R.Intn(n + 2)
+			for k := 0; k < n+2; k++ {
+				m.checkGet((start+k)%(n+2) - 1)
 			}
 		} else { // Get is linear on the linked lists: sample
 			for k := 0; k < 24; k++ {
@@ -231,13 +235,24 @@ func (m *SeqMon[T]) Apply(op listOp[T]) {
 	case "Contains":
 		m.checkContains(op.vs)
 		return
+	case "Get":
+		// a read as part of the history (not of the observation sweep): Get(i)
+		// followed by Insert/Remove at or next to i and another Get are the
+		// sequences a position cache gets wrong
+		c.Begin(m.Name, "Get", op.i)
+		m.checkGet(op.i)
+		return
+	case "IndexOf":
+		c.Begin(m.Name, "IndexOf", op.vs[0])
+		m.checkIndexOf(op.vs[0])
+		return
 	}
 }
 
 // genListOp draws the next call knowing only the abstract size n.
 func genListOp[T comparable](r *core.R, d *Dom[T], n int, maxN int) listOp[T] {
 	grow := n < maxN
-	w := []int{8, 3, 3, 10, 9, 6, 5, 2, 1, 4}
+	w := []int{8, 3, 3, 10, 9, 6, 5, 2, 1, 4, 9, 2}
 	if !grow {
 		w[0], w[1], w[2], w[3] = 1, 0, 0, 1
 		w[4] = 20
@@ -254,17 +269,22 @@ func genListOp[T comparable](r *core.R, d *Dom[T], n int, maxN int) listOp[T] {
 	case 2:
 		return listOp[T]{kind: "Prepend", vs: d.Vals(r, varCount(r))}
 	case 3:
-		return listOp[T]{kind: "Insert", i: hostileIndex(r, n), vs: d.Vals(r, varCount(r))}
+		return listOp[T]{kind: "Insert", i: structIndex(r, n), vs: d.Vals(r, varCount(r))}
 	case 4:
-		return listOp[T]{kind: "Remove", i: hostileIndex(r, n)}
+		return listOp[T]{kind: "Remove", i: structIndex(r, n)}
 	case 5:
-		return listOp[T]{kind: "Set", i: hostileIndex(r, n), vs: []T{d.Val(r)}}
+		return listOp[T]{kind: "Set", i: structIndex(r, n), vs: []T{d.Val(r)}}
 	case 6:
 		return listOp[T]{kind: "Swap", i: hostileIndex(r, n), j: hostileIndex(r, n)}
 	case 7:
 		return listOp[T]{kind: "Sort", cmp: d.Cmps[r.Intn(len(d.Cmps))]}
 	case 8:
 		return listOp[T]{kind: "Clear"}
+	case 10:
+		// mostly the index of the previous or next structural call's neighbourhood
+		return listOp[T]{kind: "Get", i: nearIndex(r, n)}
+	case 11:
+		return listOp[T]{kind: "IndexOf", vs: []T{d.AnyVal(r)}}
 	default:
 		k := varCount(r)
 		vs := make([]T, k)
@@ -272,6 +292,38 @@ func genListOp[T comparable](r *core.R, d *Dom[T], n int, maxN int) listOp[T] {
 			vs[i] = d.AnyVal(r)
 		}
 		return listOp[T]{kind: "Contains", vs: vs}
+	}
+}
+
+// structIndex draws the index of a structural call: hostile, or (one time in
+// three) at or next to the index of the previous index-taking call.
+func structIndex(r *core.R, n int) int {
+	i := hostileIndex(r, n)
+	if r.Intn(3) == 0 {
+		i = lastIdx + r.Range(-1, 1)
+	}
+	if i >= 0 && i <= n {
+		lastIdx = i
+	}
+	return i
+}
+
+// lastIdx remembers the index used by the previous index-taking call of the
+// generator, so that consecutive calls often hit the same or adjacent index.
+var lastIdx int
+
+func nearIndex(r *core.R, n int) int {
+	switch r.Intn(4) {
+	case 0:
+		return hostileIndex(r, n)
+	case 1:
+		return lastIdx
+	default:
+		i := lastIdx + r.Range(-2, 2)
+		if i >= 0 && i <= n && r.Bool() {
+			lastIdx = i
+		}
+		return i
 	}
 }
 
@@ -288,7 +340,7 @@ func runListHistory[T comparable](c *core.Ctx, d *Dom[T], steps, maxN int) {
 		op := genListOp(c.R, d, mons[0].n(), maxN)
 		for _, m := range mons {
 			m.Apply(op)
-			if op.kind != "Contains" {
+			if op.kind != "Contains" && op.kind != "Get" && op.kind != "IndexOf" {
 				m.CheckAll(m.n() <= 64 || s%16 == 0 || s == steps-1)
 			}
 		}
@@ -388,6 +440,7 @@ func runListSawtooth[T comparable](c *core.Ctx, d *Dom[T]) {
 func runC03(c *core.Ctx) {
 	const sweepCases = 13 * 4 * 4
 	i := c.Index
+	lastIdx = 0 // generator state is per case: a case is a pure function of (seed, tier, index)
 	c.SetGaps(i >= sweepCases && (i/4)%2 == 1)
 	switch {
 	case i < sweepCases:
